@@ -208,7 +208,7 @@ def grid_cases(rng, tier):
     for depth in (1, 8):
         for W in range(1, 41):
             for ox in range(0, min(maxox, W) + 1):
-                hs = GEO_H if tier != "quick" else [GEO_H[(W + ox) % 4], GEO_H[(W + ox + 1) % 4]]
+                hs = GEO_H
                 for (H, oy) in hs:
                     pad = rng.choice([0, 0xFF, rng.randrange(256)])
                     img = rand_img(rng, depth, W, H, ox, oy)
@@ -224,7 +224,7 @@ def all_cutsets(n):
 def short_row_cases(rng, tier):
     """every segmentation of lines of <= 6 bytes over a 3-value alphabet (8-bit: bytes = pixels; 1-bit: bytes of bits)"""
     out = []
-    budget = 1500 if tier == "quick" else 10 ** 9
+    budget = 2500 if tier == "quick" else 10 ** 9
     combos = []
     for depth in (8, 1):
         for nbytes in range(1, 7):
@@ -250,8 +250,8 @@ def short_row_cases(rng, tier):
             rows = S.raw_rows(img, pad)
             L = len(rows[0])
             cs = list(all_cutsets(L))
-            if tier == "quick" and len(cs) > 12:
-                cs = rng.sample(cs, 12)
+            if tier == "quick" and len(cs) > 16:
+                cs = rng.sample(cs, 16)
             encs = [("raw", "raw")]
             for c in cs:
                 for pr in (True, False):
@@ -288,6 +288,13 @@ def planar_cases(rng, n):
             kinds = ["raw", "one"]; kind += "-raw"
         img = rand_img(rng, depth, W, H, ox, oy)
         out.append(image_case(rng, img, 0, kinds, kind=kind, confined=confined))
+    # 32-bit streams of exactly 2*w*h bytes (one run per plane, W = 4): the decoder's raw test fires (F34)
+    for H in (1, 2, 3):
+        img = dict(depth=32, W=4, H=H, ox=0, oy=0, pix=[[[5, 6, 7, 8]] * 4 for _ in range(H)])
+        enc = [[["run", 4, 5], ["run", 4, 6], ["run", 4, 7], ["run", 4, 8]] for _ in range(H)]
+        enc2 = [[["run", 4, 5], ["run", 4, 6], ["run", 4, 7], ["run", 2, 8], ["run", 2, 8]] for _ in range(H)]
+        lines = [line_of(img, 0, enc), line_of(img, 0, enc2)]
+        out.append(Case(kind="planar-32-rawlen", spec=dict(depth=32, W=4, H=H, ox=0, oy=0, pad=0, encs=["runs", "runs2"]), lines=lines, expect=[None, None]))
     return out
 
 
@@ -339,7 +346,7 @@ def malformed_cases(rng, n):
 
 
 def cases(rng, tier):
-    n = dict(quick=(500, 150, 1500), thorough=(10000, 5000, 20000), search=(3000, 1000, 0))[tier]
+    n = dict(quick=(900, 200, 2500), thorough=(10000, 5000, 20000), search=(3000, 1000, 0))[tier]
     out = grid_cases(rng, tier)
     out += short_row_cases(rng, tier)
     out += planar_cases(rng, n[0])
